@@ -2,6 +2,8 @@
 # property's package; "rapid" units are sharded by PRNG seed, "plain" units
 # receive VERIF_SHARD/VERIF_NSHARDS and partition their enumeration.
 CHECKS = {}
+NOT_APPLICABLE = {}
+HOOK_COMMITS = ["62d9977"]
 
 CHECKS["C07"] = {
     "pkg": "props/c07",
@@ -15,6 +17,9 @@ CHECKS["C07"] = {
         "targets containing CTL bytes are only checked for containment (URI.parse refuses them and yields '/')",
         "CleanPath equality reference is path.Clean('/'+p) plus the documented trailing-slash rule",
     ],
+    "level_text": "Bounded-exhaustive exploration: every token string up to the stated length is checked against an independent segment-stack reference (equality) and the containment predicates of the statement, for URI.Path and CleanPath; the real FS handler is driven with every short target against a tree with canaries outside the root. Complete within the bound, sampled beyond it.",
+    "level_note": "Trusts the 40-line reference normaliser and Go's path.Clean; Linux path semantics only; targets with CTL bytes checked for containment only.",
+    "technique": "bounded-exhaustive enumeration + rapid random generation against a reference model (segment stack) and containment predicates; FS sandbox with canary files",
     "nontrivial_floor": 1000,
     "units": [
         {"name": "regress", "run": "^TestC07Regress$", "kind": "plain"},
